@@ -127,7 +127,7 @@ ssize_t __wrap_send(int fd, const void *buf, size_t len, int flags) { Ep *e = EP
 	return (ssize_t)n; }
 
 /* environment commands (what the scripted servers / clock do); shared by the main loop and by ask_script() */
-static void mhttp_plan(char **tok, int n);
+static void mhttp_plan(char **tok, int n); static int madd_fail;
 static int env_cmd(char **tok, int n) {
 	int i;
 	if (!strcmp(tok[0], "S2C")) {
@@ -145,6 +145,7 @@ static int env_cmd(char **tok, int n) {
 	} else if (!strcmp(tok[0], "GAI")) { eps[cur_ep].gai_fail = !strcmp(tok[1], "fail");
 	} else if (!strcmp(tok[0], "HTTP")) { size_t l; http_status = atol(tok[1]); free(http_body); http_body = hx_dec(n > 2 ? tok[2] : "-", &l); http_len = l; http_chunk = n > 3 ? (size_t)atol(tok[3]) : 0; http_err = 0;
 	} else if (!strcmp(tok[0], "HTTPERR")) { http_err = atoi(tok[1]);
+	} else if (!strcmp(tok[0], "MADDFAIL") && n > 1) { madd_fail = atoi(tok[1]);
 	} else if (!strcmp(tok[0], "MHTTP") || !strcmp(tok[0], "MHTTPERR")) { mhttp_plan(tok, n);
 	} else if (!strcmp(tok[0], "EP")) { cur_ep = atoi(tok[1]) % NEP;
 	} else return 0;
@@ -220,12 +221,13 @@ static void mhttp_plan(char **tok, int n) { int x = atoi(tok[1]); size_t l = 0;
 	if (!strcmp(tok[0], "MHTTPERR")) xplan[x].err = atoi(tok[2]);
 	else { xplan[x].status = atol(tok[2]); if (n > 3 && strcmp(tok[3], "-")) { xplan[x].body = hx_dec(tok[3], &l); xplan[x].len = l; } xplan[x].chunk = n > 4 ? (size_t)atol(tok[4]) : 0; }
 	xorder[nxorder++] = x; }
-CURLM *curl_multi_init(void) { FakeMulti *m = H_CALLOC(1, sizeof(FakeMulti)); the_multi = m; xcounter = 0; memset(xplan, 0, sizeof(xplan)); return m; }
+CURLM *curl_multi_init(void) { FakeMulti *m = H_CALLOC(1, sizeof(FakeMulti)); the_multi = m; xcounter = 0; madd_fail = 0; memset(xplan, 0, sizeof(xplan)); return m; }
 CURLMcode curl_multi_cleanup(CURLM *mm) { if (mm == the_multi) the_multi = NULL; free(mm); return CURLM_OK; }
 CURLMcode curl_multi_setopt(CURLM *mm, CURLMoption o, ...) { (void)mm; (void)o; return CURLM_OK; }
 const char *curl_multi_strerror(CURLMcode c) { (void)c; return "scripted curl multi error"; }
 CURLMcode curl_multi_add_handle(CURLM *mm, CURL *c) { FakeMulti *m = mm; FakeCurl *f = c;
 	if (m->n >= MAXX - 1 || xcounter >= MAXX - 1) return CURLM_OUT_OF_MEMORY;
+	if (madd_fail) { printf("E maddfail\n"); return CURLM_INTERNAL_ERROR; }
 	f->xno = ++xcounter; f->mstate = 1; m->h[m->n++] = f;
 	printf("E madd x=%d url=", f->xno); hx_print((const unsigned char *)f->url, f->url ? strlen(f->url) : 0); printf(" post=");
 	if (f->ispost && f->post) hx_print((const unsigned char *)f->post, (size_t)f->postlen); else printf("-");
